@@ -104,6 +104,34 @@ class C19(Check):
                 grp.append(("big%d:valid%d" % (k + j, s.version), b))
             yield make_case("c19_big_%05d" % k, 1 if (k // 3) % 2 else 2, grp)
 
+        # otherwise well-formed files in which ONE name is longer than NC_MAX_NAME (256 bytes), all its bytes present:
+        # must be refused (or handled) without ever copying the name into a caller's NC_MAX_NAME+1 buffer.  Private generator.
+        import random
+        prng = random.Random(hash(rng.getstate()[1][:4]) & 0xffffffff)      # varies with VERIF_SEED, consumes nothing
+        nlong = 12 if tier == "quick" else 120
+        grp = []
+        for k in range(nlong):
+            for _ in range(50):
+                s, data, b = gen_file(prng)
+                if len(s.vars) >= 1 and len(s.dims) >= 1 and cs.header_len(s) < 4000:
+                    break
+            L = [257, 300, 600, 1000, 1024, 1025, 260, 512, 768, 2048, 4096, 258][k % 12]
+            nm = bytes(prng.choice(b"abcdefghijklmnopqrstuvwxyz") for _ in range(L))
+            objs = [("dim", d) for d in s.dims] + [("var", v) for v in s.vars] + [("gatt", a) for a in s.gatts] + [("vatt", a) for v in s.vars for a in v.atts]
+            kind, o = objs[(k // 3) % len(objs)] if k % 2 else prng.choice(objs)
+            if kind == "dim":
+                o[0] = nm
+            else:
+                o.name = nm
+            for v in s.vars:
+                v.vsize = None
+            cs.assign_begins(s)
+            b = cs.build_file(s, data, filler=0)
+            grp.append(("longname:%s%d:v%d" % (kind, L, s.version), b))
+            if len(grp) == 3 or k == nlong - 1:
+                yield make_case("c19_long_%05d" % k, 1 if (k // 3) % 2 else 2, grp)
+                grp = []
+
         # "... and for every script executed by the other properties' generators when run against the sanitizer build": a
         # sample of valid programs of three generators that stress metadata (attribute overwrites with other types and sizes,
         # renames, deletes), blocking and nonblocking data paths; only the memory-safety monitors are applied to them here
